@@ -500,6 +500,10 @@ func c19Run(c *fw.Ctx) {
 			c.Extra("tmpdir_on_other_device", 1)
 		}
 	}
+	if c.Shard == c.NShards-1 {
+		// a write the operating system cuts short (no kill): success is only reported for a complete value
+		c18Faults(c)
+	}
 	for i, sc := range c19Scenarios(c.Thorough()) {
 		if !c.Mine(i) {
 			continue
@@ -512,9 +516,14 @@ func init() {
 	fw.Register(&fw.Check{
 		ID:    "C19",
 		Level: "fault_enumeration",
-		Rule:  "for each scenario (Set for every (old,new) ∈ {absent,3,10,5000 bytes} × {3,10,5000 bytes,empty}; Delete; SaveEntity over a longer / shorter / no entity; a whole hc.NewIPTransport start on a fresh, a paired-unchanged and a paired-structurally-changed store) every file-system syscall the operation issues (listed by a reference strace run) is a kill point: the real child process is SIGKILLed at the entry of exactly that call, the directory is re-opened and every key is read through hc's API: each must equal its previous or its new value in full and Entities() must succeed and list the previous or the new set; then every key is written again with a shorter value and read back (nothing a killed write left behind may leak into later writes). distinct_nontrivial = distinct (scenario, kill point) pairs reached and verified to follow the reference trace After every kill point the operation is also REPEATED by a restarted process and must complete and leave the new state; where PID namespaces are available (unshare -p) killed and restarted process have the same process id, as a container's pid 1 has; the child's TMPDIR is on another file system than the store when /dev/shm is one.",
+		Rule:  "for each scenario (Set for every (old,new) ∈ {absent,3,10,5000 bytes} × {3,10,5000 bytes,empty}; Delete; SaveEntity over a longer / shorter / no entity; a whole hc.NewIPTransport start on a fresh, a paired-unchanged and a paired-structurally-changed store) every file-system syscall the operation issues (listed by a reference strace run) is a kill point: the real child process is SIGKILLed at the entry of exactly that call, the directory is re-opened and every key is read through hc's API: each must equal its previous or its new value in full and Entities() must succeed and list the previous or the new set; then every key is written again with a shorter value and read back (nothing a killed write left behind may leak into later writes). distinct_nontrivial = distinct (scenario, kill point) pairs reached and verified to follow the reference trace Writes cut short by the operating system without a kill (RLIMIT_FSIZE: 0, 1, 9, 4096, 65536 bytes; Set and SaveEntity over absent / short / long values): success only with the complete value, failure leaves the previous one. After every kill point the operation is also REPEATED by a restarted process and must complete and leave the new state; where PID namespaces are available (unshare -p) killed and restarted process have the same process id, as a container's pid 1 has; the child's TMPDIR is on another file system than the store when /dev/shm is one.",
 		Run:   c19Run,
 		Replay: func(c *fw.Ctx, raw json.RawMessage) {
+			var fc c18Case
+			if json.Unmarshal(raw, &fc) == nil && fc.Fault != "" {
+				c18Faults(c)
+				return
+			}
 			var cas c19Case
 			json.Unmarshal(raw, &cas)
 			c19Scenario1(c, cas.Scenario, cas.Kill)
